@@ -28,7 +28,8 @@ Section NaNStep.
     eexists. split; [reflexivity|].
     unfold nr_finish, nr_maxed, nr_niter0, nr_reeval, nr_flag_nan, nr_flag_maxed.
     assert (Hne : (0 =? max_steps)%Z = false) by (apply Z.eqb_neq; lia).
-    rewrite Hne. cbn [negb tr_cons r_flag r_x r_niter]. repeat split.
+    rewrite Hne. cbn [negb tr_cons r_flag r_x r_niter]. unfold nr_flag_fnan.
+    destruct (nr_f_nan N (fst3 (obj init))); repeat split.
   Qed.
 End NaNStep.
 
@@ -84,16 +85,29 @@ Proof.
 Qed.
 
 (* LLHRatio.maximize with an NR minimiser *)
-Theorem maximize_nr_spec {T} (N : Num T) llh tol max_steps max_reps bounds uniform initials ll x st :
-  maximize_nr N llh tol max_steps max_reps bounds uniform initials = Ok (ll, x, st) ->
-  ll = mx_llmax_nr N (r_f st) /\ (r_flag st <= 0)%Z /\
-  nr1d_vec N (neg_obj N llh) tol max_steps bounds initials = Ok (x, st).
+Theorem maximize_nr_spec {T} (N : Num T) ns_pidx llh tol max_steps max_reps bounds uniform initials ll x st :
+  maximize_nr N ns_pidx llh tol max_steps max_reps bounds uniform initials = Ok (ll, x, st) ->
+  ns_pidx = 0%Z /\ ll = mx_llmax_nr N (r_f st) /\ (r_flag st <= 0)%Z /\
+  nr1d_vec N (neg_obj N ns_pidx llh) tol max_steps bounds initials = Ok (x, st).
 Proof.
   unfold maximize_nr. intros H.
-  destruct (minimize_nr N (neg_obj N llh) tol max_steps max_reps bounds uniform initials)
+  destruct (mx_ns_not_first ns_pidx) eqn:En; [discriminate|].
+  assert (Hz : ns_pidx = 0%Z).
+  { unfold mx_ns_not_first in En. apply negb_false_iff in En. apply Z.eqb_eq in En. exact En. }
+  destruct (minimize_nr N (neg_obj N ns_pidx llh) tol max_steps max_reps bounds uniform initials)
     as [[[[x0 f0] st0] rp]|e] eqn:Em; [|discriminate].
   cbn [bind] in H. injection H as <- <- <-.
   apply minimize_nr_status in Em. destruct Em as (Hfl & _ & -> & Hv). repeat split; assumption.
+Qed.
+
+(* ns not the first global floating parameter: the NR path raises (it would vary x[0] with ns-derivatives) *)
+Theorem maximize_nr_ns_first {T} (N : Num T) ns_pidx llh tol max_steps max_reps bounds p2s uniform initials :
+  ns_pidx <> 0%Z ->
+  maximize_nr N ns_pidx llh tol max_steps max_reps bounds uniform initials = Err ValueError /\
+  maximize_scan N ns_pidx llh tol max_steps max_reps bounds p2s uniform initials = Err ValueError.
+Proof.
+  intros Hn. unfold maximize_nr, maximize_scan, mx_ns_not_first.
+  destruct (Z.eqb_spec ns_pidx 0); [contradiction|]. split; reflexivity.
 Qed.
 
 (* ------------------------------------------------------------------ over the reals *)
@@ -185,18 +199,18 @@ End VecScan.
 
 (* LLHRatio.maximize (NR path): the reported maximum is the log-likelihood ratio
    at the reported point, the point is within the ns bounds *)
-Theorem maximize_nr_value erfR llh tol max_steps max_reps bounds uniform initials ll x st :
+Theorem maximize_nr_value erfR ns_pidx llh tol max_steps max_reps bounds uniform initials ll x st :
   (0 <= max_steps)%Z ->
-  maximize_nr (RNum erfR) llh tol max_steps max_reps bounds uniform initials = Ok (ll, x, st) ->
-  ll = fst3 (llh x) /\ (r_flag st <= 0)%Z /\
+  maximize_nr (RNum erfR) ns_pidx llh tol max_steps max_reps bounds uniform initials = Ok (ll, x, st) ->
+  ns_pidx = 0%Z /\ ll = fst3 (llh x) /\ (r_flag st <= 0)%Z /\
   exists lo hi bs i0 rest, bounds = (lo, hi) :: bs /\ initials = i0 :: rest /\ x = r_x st :: rest /\
                            lo <= i0 /\ (lo <= hi -> i0 <= hi -> lo <= r_x st <= hi).
 Proof.
-  intros Hms H. apply maximize_nr_spec in H. destruct H as (Hll & Hfl & Hv).
+  intros Hms H. apply maximize_nr_spec in H. destruct H as (Hz & Hll & Hfl & Hv).
   destruct bounds as [|[lo hi] bs]; [discriminate|].
   destruct initials as [|i0 rest]; [discriminate|].
   apply nr1d_vec_spec in Hv; [|exact Hms]. destruct Hv as (Hx & Hlo & _ & Hb & Hf).
-  split.
+  split; [exact Hz|]. split.
   - rewrite Hll, Hf. unfold neg_obj, fst3. destruct (llh x) as [[a b] c]. cbn [fst].
     unfold mx_llmax_nr, mx_neg_f. num_R. lra.
   - split; [exact Hfl|]. exists lo, hi, bs, i0, rest. repeat split; try assumption; apply Hb; assumption.
